@@ -61,7 +61,7 @@ Min2(a, b) == IF a < b THEN a ELSE b
 NoPanic == IsOp => ~ev.panic
 
 (* operations succeed / fail exactly as on a set keyed by id *)
-C25_SetSemantics ==
+Raw_C25_SetSemantics ==
   IsOp =>
     CASE ev.ev = "Add" -> ev.err = (IF ev.id \in DOMAIN pre THEN "exist" ELSE "none")
       [] ev.ev \in {"Update", "Remove"} -> ev.err = (IF ev.id \in DOMAIN pre THEN "none" ELSE "notfound")
@@ -70,18 +70,18 @@ C25_SetSemantics ==
       [] OTHER -> ev.err = "none"
 
 (* membership checks and lookups agree with the set *)
-C25_Membership ==
+Raw_C25_Membership ==
   IsOp => /\ ~ev.obserr
           /\ \A i \in DOMAIN ev.exist : (ev.exist[i].d = 1) <=> (ev.exist[i].a \in DOMAIN m)
           /\ \A i \in DOMAIN ev.gets : ev.gets[i].d = (IF ev.gets[i].a \in DOMAIN m THEN m[ev.gets[i].a] ELSE -1)
 
 (* full iteration shows exactly the set, every item once *)
-C25_NoDuplicates == Full => Len(Items) = Cardinality(ItemIds)
-C25_IterationIsTheSet ==
+Raw_C25_NoDuplicates == Full => Len(Items) = Cardinality(ItemIds)
+Raw_C25_IterationIsTheSet ==
   Full => {<<Items[i].id, Items[i].v>> : i \in DOMAIN Items} = {<<id, m[id]>> : id \in DOMAIN m}
 
 (* all partitions except the last are full *)
-C25_AllButLastFull ==
+Raw_C25_AllButLastFull ==
   (Full /\ Items # <<>>) =>
      LET hi == CHOOSE p \in Parts : \A q \in Parts : q <= p IN
        /\ Parts = 0..hi
@@ -89,11 +89,19 @@ C25_AllButLastFull ==
        /\ CountIn(hi) <= psize
 
 (* the reported size is exact *)
-C25_SizeExact == IsOp => ev.size = Cardinality(DOMAIN m)
+Raw_C25_SizeExact == IsOp => ev.size = Cardinality(DOMAIN m)
 
 (* random sampling returns distinct members (at least one when the set is not empty) *)
-C25_RandomDistinctMembers ==
+Raw_C25_RandomDistinctMembers ==
   Full => /\ Cardinality({ev.rand[i].a : i \in DOMAIN ev.rand}) = Len(ev.rand)
           /\ \A i \in DOMAIN ev.rand : ev.rand[i].a \in DOMAIN m /\ ev.rand[i].d = m[ev.rand[i].a]
           /\ DOMAIN m # {} => ~ev.randerr /\ Len(ev.rand) >= 1
+(* events marked by bin/vcheck as instances of a listed known finding are consumed, not judged *)
+C25_SetSemantics == IsKnown(ev) \/ Raw_C25_SetSemantics
+C25_Membership == IsKnown(ev) \/ Raw_C25_Membership
+C25_NoDuplicates == IsKnown(ev) \/ Raw_C25_NoDuplicates
+C25_IterationIsTheSet == IsKnown(ev) \/ Raw_C25_IterationIsTheSet
+C25_AllButLastFull == IsKnown(ev) \/ Raw_C25_AllButLastFull
+C25_SizeExact == IsKnown(ev) \/ Raw_C25_SizeExact
+C25_RandomDistinctMembers == IsKnown(ev) \/ Raw_C25_RandomDistinctMembers
 =============================================================================
